@@ -107,8 +107,8 @@ PROPS = {
     ),
     'C12': dict(
         title='modifiers', proj='proj_full', oracle='c12',
-        quick=[S_('probes', nc=1, items=('odd_defaults_c12', 'hint_history', 'pok_receiver', 'pok_forms_direct')), S_('bindcall'), S_('pok'), S_('pokm'), S_('pokmforms'), S_('pokstacked'), S_('poknames'), S_('modorder', oracle='c18'), S_('lateattr', nc=1, oracle='c18')],
-        thorough=[S_('probes', nc=1, items=('odd_defaults_c12', 'hint_history', 'pok_receiver', 'pok_forms_direct')), S_('bindcall'), S_('pok', nc=64), S_('pokm'), S_('pokmforms'), S_('pokstacked'), S_('poknames'), S_('modorder', oracle='c18'), S_('lateattr', nc=1, oracle='c18')],
+        quick=[S_('probes', nc=1, items=('odd_defaults_c12', 'hint_history', 'pok_receiver', 'pok_forms_direct', 'pok_remarks_c12')), S_('bindcall'), S_('pok'), S_('pokm'), S_('pokmforms'), S_('pokstacked'), S_('poknames'), S_('modorder', oracle='c18'), S_('lateattr', nc=1, oracle='c18')],
+        thorough=[S_('probes', nc=1, items=('odd_defaults_c12', 'hint_history', 'pok_receiver', 'pok_forms_direct', 'pok_remarks_c12')), S_('bindcall'), S_('pok', nc=64), S_('pokm'), S_('pokmforms'), S_('pokstacked'), S_('poknames'), S_('modorder', oracle='c18'), S_('lateattr', nc=1, oracle='c18')],
         runtime_part='descriptor binding of the translator object, functools.update_wrapper',
         level_text='prepare (advertised signature, admissibility) and the call translation are modelled branch by branch; exactness of the translated call '
                    'w.r.t. a native function of the advertised signature is a theorem over a value-level model of CPython binding. Correspondence: every '
@@ -165,8 +165,8 @@ PROPS = {
     ),
     'C18': dict(
         title='order / history independence, no retention', proj='proj_full', oracle='c18',
-        quick=[S_('probes', nc=1, items=('hint_history', 'pok_forms_bound')), S_('cacheid', nc=8), S_('cache', maxlen=3), S_('modorder'), S_('pokm'), S_('lateattr', nc=1), S_('probes', nc=1, items=('owner_binding',)), S_('redecorate', nc=4)],
-        thorough=[S_('probes', nc=1, items=('hint_history', 'pok_forms_bound')), S_('cacheid', nc=8, count=6000), S_('cache', maxlen=4), S_('modorder'), S_('pokm'), S_('lateattr', nc=1), S_('probes', nc=1, items=('owner_binding',)), S_('redecorate', nc=4)],
+        quick=[S_('probes', nc=1, items=('hint_history', 'pok_forms_bound', 'pok_remarks_c18')), S_('cacheid', nc=8), S_('cache', maxlen=3), S_('modorder'), S_('pokm'), S_('lateattr', nc=1), S_('probes', nc=1, items=('owner_binding',)), S_('redecorate', nc=4)],
+        thorough=[S_('probes', nc=1, items=('hint_history', 'pok_forms_bound', 'pok_remarks_c18')), S_('cacheid', nc=8, count=6000), S_('cache', maxlen=4), S_('modorder'), S_('pokm'), S_('lateattr', nc=1), S_('probes', nc=1, items=('owner_binding',)), S_('redecorate', nc=4)],
         runtime_part='the garbage collector and weakref callbacks (observed through weak references after gc.collect())',
         level_text='The descriptor cache is a heap-reachability model over arbitrary operation histories: no retention with the weak-value dictionary is a theorem (and retention with the '
                    'pinned weak-key one is its refutation, D7, repaired); order independence of stacked modifiers is the theorem prepare_set_ext. Real histories (all of length <= 3/4 over '
